@@ -4,6 +4,7 @@ passes without) and store it under /verif/seeded/<id>/."""
 import json, os, shutil, subprocess, sys
 
 SRC = sys.argv[1] if len(sys.argv) > 1 else "/tmp/wt_out"
+TAG = sys.argv[2] if len(sys.argv) > 2 else ""
 WT = "/tmp/wt_verify"
 PY = "/venv/bin/python"
 
@@ -27,7 +28,7 @@ def main():
             demo = os.path.join(d, "demo.py")
             if not (os.path.exists(patch) and os.path.exists(demo)):
                 continue
-            sid = f"{prop}-{m}"
+            sid = f"{prop}-{TAG}{m}"
             sh("git checkout -q -- . && git clean -fdq -e spec_classes/_version.py", cwd=WT)
             rc_clean, out_clean = sh(f"{PY} {demo}", cwd=WT, timeout=300)
             rc_apply, out = sh(f"git apply {patch}", cwd=WT)
